@@ -239,7 +239,7 @@ type Engine struct {
 	sqlTexts   map[string]bool
 	dbErrors   bool
 	inMemoryPossible bool
-	needXattr, needFeedEv, needCollid bool
+	needXattr, needFeedEv, needCollid, needLenHas bool
 	inlinePost bool
 	docSchema  []ColDef
 	sqliteErrT types.Type
@@ -402,6 +402,10 @@ func mapSorts(m *types.Map) (ks, vs *Sort, absent Term, ok bool) {
 	if _, isIface := m.Elem().Underlying().(*types.Interface); isIface {
 		return ks, SJson, mkT("JABSENT", SJson), true
 	}
+	if vs == SInt || vs == SBool || vs == SStr {
+		// presence is tracked by a separate array (MapObj.Has); Absent is unused
+		return ks, vs, Term{}, true
+	}
 	return nil, nil, Term{}, false
 }
 
@@ -410,13 +414,17 @@ func (e *Engine) symbolicMap(st *State, m *types.Map, name string) Value {
 	if ks, vs, absent, ok := mapSorts(m); ok {
 		obj.KeySort, obj.ValSort, obj.Absent = ks, vs, absent
 		obj.Arr = st.declare("in."+sanitize(name), canonSort(fmt.Sprintf("(Array %s %s)", ks.Name, vs.Name)))
+		if absent.S == "" {
+			obj.Has = st.declare("in."+sanitize(name)+".has", canonSort(fmt.Sprintf("(Array %s Bool)", ks.Name)))
+		}
 	} else {
 		obj.Struct = true
 		obj.Entries = map[string]Value{}
 		obj.KeyTerms = map[string]Term{}
 		// a structured symbolic map: content unknown; lookups of unknown keys produce lazies
 	}
-	cell := e.newCell(st, obj)
+	obj.Name = name
+	cell := e.namedCell(st, "map:"+name, obj)
 	return VMap{cell}
 }
 
